@@ -6,7 +6,7 @@ import ast
 
 from ..cfg import CFG
 from ..facts import calls_in
-from ..index import FuncInfo, dotted_of, norm, own_nodes
+from ..index import FuncInfo, dotted_of, norm, own_nodes, short
 from ..shared import s1_sites
 
 PROPERTY = "C18"
@@ -26,8 +26,12 @@ RULES = {
     "method that extract() returns through has allow_outer_scope_values false - passed explicitly as False, or left "
     "to a parameter default that is the constant False (the frontier check only sees direct inputs of the selected "
     "nodes; values captured by nested bodies are caught by the cloner)",
+    "R6": "the clone that ends an extraction looks its graph outputs up strictly: in Cloner.clone_graph the values of "
+    "`graph.outputs` are resolved by a method that only reads the value map (an unmapped output raises) - a method that "
+    "creates a fresh Value for an unmapped one lets extract() return a graph whose output is neither an input, an initializer "
+    "nor a node output instead of raising for an uncovered required value",
 }
-FLOORS = {"R1": 1, "R2": 4, "R3": 3, "R4": 2, "R5": 1}
+FLOORS = {"R1": 1, "R2": 4, "R3": 3, "R4": 2, "R5": 1, "R6": 1}
 EXPLANATION = (
     "Return-value provenance of extract(), sibling agreement of the two subgraph-attribute branches, push/pop pairing "
     "and dominance of the boundary validation over the result."
@@ -214,7 +218,55 @@ def rule_r5(ctx):
         ctx.ob("R5", "extract() does not return through <view>.clone() (reported by R1)", True, nontrivial=False)
 
 
+def rule_r6(ctx):
+    cl = ctx.repo.cls("onnx_ir._cloner:Cloner")
+    cg = cl.methods.get("clone_graph") if cl else None
+    ctx.require(cg is not None, "Cloner.clone_graph not found")
+    gp = cg.params[1] if len(cg.params) > 1 else None
+
+    def creates(m, depth=0, seen=None):
+        """Node inside method m (self-calls followed) that stores into the value map or constructs a Value."""
+        seen = seen if seen is not None else set()
+        if m.name in seen or depth > 3:
+            return None
+        seen.add(m.name)
+        for x in own_nodes(m.node):
+            if isinstance(x, (ast.Assign, ast.AugAssign)):
+                for t in (x.targets if isinstance(x, ast.Assign) else [x.target]):
+                    if isinstance(t, ast.Subscript) and isinstance(t.value, ast.Attribute) and "value_map" in t.value.attr:
+                        return x
+            if isinstance(x, ast.Call):
+                d = dotted_of(x.func) or ""
+                if d.split(".")[-1] == "Value":
+                    return x
+                if isinstance(x.func, ast.Attribute) and isinstance(x.func.value, ast.Name) and x.func.value.id == "self" and x.func.attr in cl.methods:
+                    r = creates(cl.methods[x.func.attr], depth + 1, seen)
+                    if r is not None:
+                        return r
+        return None
+
+    n = 0
+    for comp in (x for x in own_nodes(cg.node) if isinstance(x, (ast.ListComp, ast.GeneratorExp)) or isinstance(x, ast.For)):
+        it = comp.generators[0].iter if not isinstance(comp, ast.For) else comp.iter
+        if norm(it) != f"{gp}.outputs":
+            continue
+        body = [comp.elt] if not isinstance(comp, ast.For) else comp.body
+        calls = [c for b in body for c in ast.walk(b) if isinstance(c, ast.Call) and isinstance(c.func, ast.Attribute)
+                 and isinstance(c.func.value, ast.Name) and c.func.value.id == "self" and c.func.attr in cl.methods]
+        for c in calls:
+            n += 1
+            bad = creates(cl.methods[c.func.attr])
+            ctx.check("R6", f"clone_graph resolves graph outputs with {c.func.attr} (read-only lookup)", bad is None, cg, c,
+                      f"graph outputs are resolved with `{c.func.attr}`, which creates a value for an output that was never cloned "
+                      f"(`{short(norm(bad)) if bad is not None else ''}`): an output that is an uncovered source value then appears in the extracted graph as a "
+                      "dangling value instead of making extract() raise",
+                      how="method applied to the elements of <graph>.outputs in clone_graph: no store into the value map, no Value(...) construction (self-calls followed)",
+                      construct="graph outputs resolved by a creating lookup")
+    ctx.require(n >= 1, "lookup of the graph outputs in Cloner.clone_graph not found")
+
+
 def run(ctx):
+    rule_r6(ctx)
     rule_r4(ctx)
     rule_r5(ctx)
     repo = ctx.repo
